@@ -275,6 +275,15 @@ Theorem C01_overlapping_uploads_independent : forall table f ua ub sched f1,
 Proof. exact overlap_is_sequential. Qed.
 Print Assumptions C01_overlapping_uploads_independent.
 
+(* ---- a backend fault at close ----
+   close() of the file raises after flushing only k bytes (the buffered tail does not fit: quota, ENOSPC,
+   EFBIG): the exception leaves the `async with`, the completion reply is never queued.  Together with
+   C01_visible_after_226: a 226 was sent <=> the file was closed successfully and holds spec_store. *)
+Theorem C01_close_failure_no_reply : forall ctx m off old blocks flushes k,
+  v_at_reply (v_run old (stor_script_close_fails ctx m off blocks flushes k)) = None.
+Proof. exact close_failure_no_reply. Qed.
+Print Assumptions C01_close_failure_no_reply.
+
 (* ---- a missing file ---- *)
 (* REST n (n > 0) + STOR/APPE on a missing path: 451, nothing created, no 226 (inner None);
    without an offset the file is created and holds exactly the payload *)
